@@ -1,11 +1,15 @@
 #!/bin/bash
-# tools/try_patch.sh <patch-file | "sed:<expr>:<file>"> <check id> [extra args]  - apply to /repo, run ./check, always revert
+# tools/try_patch.sh <patch-file | "sed:<expr>:<file>"> <check id> [extra args]
+# Applies the change to a scratch worktree of /repo's HEAD (outside /repo and /verif), runs ./check against it
+# (VERIF_REPO), removes the worktree.  /repo itself is never touched.
 P=$1; ID=$2; shift 2
-cd /repo || exit 2
-if [ -n "$(git status --porcelain --untracked-files=no)" ]; then echo "/repo has uncommitted changes"; exit 2; fi
+WT=/tmp/tp-$$-$RANDOM
+git -C /repo worktree add -q --detach $WT HEAD || exit 2
+trap 'git -C /repo worktree remove --force $WT >/dev/null 2>&1; git -C /repo worktree prune' EXIT
+cd $WT
 case "$P" in
   sed:*) E=$(echo "$P" | cut -d: -f2); F=$(echo "$P" | cut -d: -f3); sed -i "$E" "$F"; git diff --stat | tail -1;;
-  *) git apply "$P" || exit 2;;
+  *) case "$P" in /*) ;; *) P=/verif/$P;; esac; git apply "$P" || exit 2;;
 esac
-cd /verif; ./check $ID --no-evidence "$@" 2>&1 | grep -v "^  inputs\|^  concrete" | tail -${TAILN:-6}; RC=${PIPESTATUS[0]}
-git -C /repo checkout -- . ; echo "check exit=$RC (repo reverted)"
+cd /verif; VERIF_REPO=$WT timeout ${TMO:-900} ./check $ID --no-evidence "$@" 2>&1 | grep -v "^  inputs\|^  concrete" | tail -${TAILN:-6}; RC=${PIPESTATUS[0]}
+echo "check exit=$RC"
